@@ -112,6 +112,14 @@ def gen_cases(rng, tier, scale):
             open_blocks.pop()
             items.append(tag('/if', True))
         cases.append(rcase(f'r{i}', source(items), DATA, partials=PARTS, entry=0, items=items, kind='random', cellk=None, tags=['random']))
+    # fixed witnesses of the recorded findings, so that each is met on every run
+    from wsspec import tag as _t, text as _x
+    W = [('wF8', [_t('#if t', True), _x('\nb\n'), _t('/if', True), _x('  ')]),
+         ('wF11', [_t('v', False, False, True, 'V'), _x('  '), _t('!c', True), _x('  z')]),
+         ('wF13', [_x('q\r  '), _t('#if t', True), _x('\ry'), _t('/if', True)]),
+         ('wF14', [_t('#if t', True, False, True), _x('\n'), _t('v', False, False, False, 'V'), _x('\n foo'), _t('/if', True)])]
+    for cid, items in W:
+        cases.append(rcase(cid, source(items), DATA, partials=PARTS, entry=0, items=items, kind='grid', cellk=None, tags=['witness']))
     # `~` on a value expression equals deleting the whitespace by hand
     m = (150 if tier == 'quick' else 2000) * scale
     for i in range(m):
@@ -161,3 +169,8 @@ def known_F11_tilde_then_comment(c, mo, io):
     # a `~}}` whose flag survives to a later comment (no other tag in between): the text after the
     # comment loses its leading whitespace as well
     return bool(_re.search(r'~\}\}(?:(?!\{\{(?!!)).)*?\{\{!', c['tpl'], _re.S))
+
+def known_F14_stale_trim_line(c, mo, io):
+    # a standalone tag ending in ~}} followed (after whitespace only) by another tag: the standalone
+    # flag is not consumed and strips the line break after that next tag instead
+    return bool(_re.search(r'~\}\}\s*\{\{', c['tpl']))
